@@ -564,9 +564,9 @@ pub fn m_work(obs: &Obs, v: &mut Vec<Violation>) {
     if adv > len {
         bad(format!("cursor travelled {} bytes through a buffer of {} bytes", adv, len));
     }
-    if new > 1 {
-        bad(format!("{} cursors were created over the buffer in one call", new));
-    }
+    // (how many cursor objects a call creates is an implementation detail; only their summed
+    // travel counts)
+    let _ = new;
     if steps + peeks > WORK_K * len + WORK_K0 {
         bad(format!("{} cursor operations for a buffer of {} bytes (bound {}*len+{})", steps + peeks, len, WORK_K, WORK_K0));
     }
